@@ -205,6 +205,28 @@ func mockCatalogue() []mockCase {
 		f.Messages[1].Nested = []*spec.Message{{Name: "Item", Fields: []*spec.Field{spec.F("id", 1, spec.String).With(exs("n1", "n2"))}}}
 		return f
 	}})
+	// a nested type used from a message OTHER than the one that encloses it (a sibling nested type, an
+	// unrelated top-level message, a map value): its examples belong to the type, wherever it is used
+	out = append(out, mockCase{ID: "mock/examples/nested-type-used-from-sibling-nested-type",
+		Examples: map[string][]string{"line.price.currency": {"EUR", "USD"}, "line.price.units": {"7", "9"}, "line.label": {"first"}},
+		ExKind:   map[string]string{"line.price.currency": "string", "line.price.units": "int", "line.label": "string"}, Build: func(pkg string) *spec.File {
+			f := mockFile(pkg, []*spec.Field{spec.FM("line", 1, "."+pkg+".MResp.Line"), spec.F("name", 2, spec.String)})
+			f.Messages[1].Nested = []*spec.Message{
+				{Name: "Money", Fields: []*spec.Field{spec.F("currency", 1, spec.String).With(exs("EUR", "USD")), spec.F("units", 2, spec.Int64).With(exs("7", "9"))}},
+				{Name: "Line", Fields: []*spec.Field{spec.FM("price", 1, "."+pkg+".MResp.Money"), spec.F("label", 2, spec.String).With(exs("first"))}},
+			}
+			return f
+		}})
+	out = append(out, mockCase{ID: "mock/examples/nested-type-of-another-message",
+		Examples: map[string][]string{"first.sku": {"sku-1", "sku-2"}, "first.inStock": {"false"}, "bySku.*.sku": {"sku-1", "sku-2"}, "bySku.*.inStock": {"false"}, "wrapped.item.sku": {"sku-1", "sku-2"}},
+		ExKind:   map[string]string{"first.sku": "string", "first.inStock": "bool", "bySku.*.sku": "string", "bySku.*.inStock": "bool", "wrapped.item.sku": "string"}, Build: func(pkg string) *spec.File {
+			item := "." + pkg + ".Catalog.Item"
+			f := mockFile(pkg, []*spec.Field{spec.FM("first", 1, item), spec.FM("by_sku", 2, item).MapOf(spec.String), spec.FM("wrapped", 3, "."+pkg+".Wrapper")},
+				&spec.Message{Name: "Catalog", Fields: []*spec.Field{spec.F("title", 1, spec.String)}, Nested: []*spec.Message{
+					{Name: "Item", Fields: []*spec.Field{spec.F("sku", 1, spec.String).With(exs("sku-1", "sku-2")), spec.F("in_stock", 2, spec.Bool).With(exs("false"))}}}},
+				&spec.Message{Name: "Wrapper", Fields: []*spec.Field{spec.FM("item", 1, item)}})
+			return f
+		}})
 	// examples on fields that also carry validation rules which every example satisfies (lengths count characters)
 	strRules := func(r *validate.StringRules) *validate.FieldRules {
 		return &validate.FieldRules{Type: &validate.FieldRules_String_{String_: r}}
@@ -666,6 +688,16 @@ func lookupPath(t any, path string) []any {
 }
 
 func normExample(s, kind string) string {
+	if s == "<nil>" {
+		// absent from the JSON object: proto3 JSON omits a field that holds its default value
+		switch kind {
+		case "int", "float":
+			return "0"
+		case "bool":
+			return "false"
+		}
+		return ""
+	}
 	switch kind {
 	case "int":
 		if n, err := strconv.ParseInt(strings.Trim(s, `"`), 10, 64); err == nil {
